@@ -887,6 +887,14 @@ DIRECTED = [
     directed_case([["version", "a\nb"], ["form_title", "x\ry"]], [["version", "a\nb"], ["title", "x\ry"]], []),
     # C11-attribute-same-local-name-evicted: two custom attributes that differ only by a prefix
     directed_case([["attribute::jr:x", "1"], ["attribute::x", "2"]], [], [["jr:x", "1"], ["x", "2"]]),
+    # both the documented `form_id` column and the legacy `id_string` column (workbook_to_json drops the legacy one
+    # and warns): "form_id is the id attribute" — in either column order (seeded C11-12)
+    directed_case([["id_string", "legacy_id"], ["form_id", "real_id"], ["version", "v7"]],
+                  [["id_string", "real_id"], ["version", "v7"]], []),
+    directed_case([["form_id", "real_id"], ["id_string", "legacy_id"], ["version", "v7"]],
+                  [["id_string", "real_id"], ["version", "v7"]], []),
+    directed_case([["form_title", "T"], ["form_id", "real_id"], ["style", "pages"], ["id_string", "legacy_id"]],
+                  [["title", "T"], ["id_string", "real_id"], ["style", "pages"]], []),
 ]
 
 
